@@ -19,6 +19,49 @@ import re as _re
 from .src import Unknown, dotted
 
 
+class PyRaise(Exception):
+    """A Python exception that the analysed code would raise at this point (modelled, not an error of the
+    analysis): carried to the nearest enclosing ``try`` of the interpreted code, or to the rule."""
+
+    def __init__(self, cls, node=None, msg=''):
+        super().__init__(f'{getattr(cls, "__name__", cls)}: {msg}')
+        self.cls, self.node, self.msg = cls, node, msg
+
+    @property
+    def name(self):
+        return getattr(self.cls, '__name__', str(self.cls))
+
+
+class RepoExc:
+    """Exception class defined in the repository (e.g. DataOverflowError(ValueError))."""
+
+    def __init__(self, name, bases):
+        self.__name__, self.bases = name, bases
+
+    def __repr__(self):
+        return f'<exception class {self.__name__}>'
+
+
+def exc_issub(cls, target):
+    """Is exception class `cls` (builtin class or RepoExc) a subclass of `target` (same kinds / tuple)?"""
+    if isinstance(target, tuple):
+        return any(exc_issub(cls, t) for t in target)
+    if cls is target:
+        return True
+    if isinstance(cls, RepoExc):
+        return any(exc_issub(b, target) for b in cls.bases)
+    if isinstance(target, RepoExc):
+        return False
+    try:
+        return issubclass(cls, target)
+    except TypeError:
+        return False
+
+
+_MODELLED_EXC = (ValueError, TypeError, KeyError, IndexError, AttributeError, LookupError, ZeroDivisionError,
+                 OverflowError, StopIteration)
+
+
 class Sym:
     """Opaque symbolic value; arithmetic keeps it symbolic, branching on it is Unknown."""
     __slots__ = ('name',)
@@ -138,6 +181,10 @@ _BUILTINS = {
     'reversed': lambda x: list(reversed(x)), 'enumerate': lambda *a, **k: list(enumerate(*a, **k)),
     'zip': lambda *a: list(zip(*a)), 'isinstance': None, 'None': None, 'True': True, 'False': False,
     'namedtuple': collections.namedtuple,
+    'ValueError': ValueError, 'TypeError': TypeError, 'KeyError': KeyError, 'IndexError': IndexError,
+    'AttributeError': AttributeError, 'LookupError': LookupError, 'UnicodeError': UnicodeError,
+    'UnicodeEncodeError': UnicodeEncodeError, 'OSError': OSError, 'Exception': Exception,
+    'AssertionError': AssertionError, 'ImportError': ImportError, 'StopIteration': StopIteration,
 }
 _SAFE_METHODS = {
     dict: {'keys', 'values', 'items', 'get'},
@@ -193,6 +240,8 @@ def ev(node, env):
                 return getattr(base, node.attr)
         if isinstance(base, tuple) and hasattr(type(base), '_fields') and node.attr in type(base)._fields:
             return getattr(base, node.attr)
+        if not hasattr(base, node.attr) and isinstance(base, (int, str, bytes, float, tuple, list, dict, type(None), bool)):
+            raise PyRaise(AttributeError, node, f'{type(base).__name__!r} object has no attribute {node.attr!r}')
         raise Unknown(f'attribute .{node.attr} of {type(base).__name__} not in whitelist')
     if t is ast.Tuple:
         return tuple(_elts(node.elts, env))
@@ -215,8 +264,10 @@ def ev(node, env):
         a, b = ev(node.left, env), ev(node.right, env)
         try:
             return op(a, b)
-        except Unknown:
+        except (Unknown, PyRaise):
             raise
+        except _MODELLED_EXC as ex:
+            raise PyRaise(type(ex), node, str(ex))
         except Exception as ex:
             raise Unknown(f'{ast.unparse(node)}: {type(ex).__name__}: {ex}')
     if t is ast.UnaryOp:
@@ -250,8 +301,10 @@ def ev(node, env):
             f = _CMPOPS[type(op)]
             try:
                 res = f(left, r)
-            except Unknown:
+            except (Unknown, PyRaise):
                 raise
+            except _MODELLED_EXC as ex:
+                raise PyRaise(type(ex), node, str(ex))
             except Exception as ex:
                 raise Unknown(f'{ast.unparse(node)}: {type(ex).__name__}: {ex}')
             if isinstance(res, Sym):
@@ -277,6 +330,10 @@ def ev(node, env):
             return Sym(f'{getattr(base, "name", base)}[{getattr(idx, "name", idx)}]')
         try:
             return base[idx]
+        except (Unknown, PyRaise):
+            raise
+        except _MODELLED_EXC as ex:
+            raise PyRaise(type(ex), node, str(ex))
         except Exception as ex:
             raise Unknown(f'{ast.unparse(node)}: {type(ex).__name__}: {ex}')
     if t in (ast.ListComp, ast.GeneratorExp, ast.SetComp):
@@ -377,9 +434,13 @@ def _call(node, env):
         pass
     try:
         return fn(*args, **kw)
-    except Unknown:
+    except (Unknown, PyRaise):
         raise
+    except _MODELLED_EXC as ex:
+        raise PyRaise(type(ex), node, str(ex))
     except Exception as ex:
+        if type(ex).__name__ in ('Return', 'Raised', '_Break', '_Continue'):
+            raise
         raise Unknown(f'{ast.unparse(node)[:80]}: {type(ex).__name__}: {ex}')
 
 
